@@ -378,7 +378,9 @@ fn judge(w: &World, run: &WorldRun, rep: &mut Reporter, widx: u64) {
                         // injector legitimately controls (it gained nothing it could not have had by
                         // lying in bailiwick) - still a record with a foreign owner used as a
                         // name-server address, but kept apart from real cross-zone poisoning
-                        let sig = if !c.tcp && in_territory(&c.qname, &i.terr) {
+                        let sig = if c.tcp {
+                            format!("inj-{}|tcp-connect", sec_name(i.section))
+                        } else if in_territory(&c.qname, &i.terr) {
                             format!("inj-{}|for-own-zone", sec_name(i.section))
                         } else {
                             format!("{}|inj-{}|for-foreign-zone", i.kind, sec_name(i.section))
